@@ -15,7 +15,7 @@ def main():
     ins = kani.make_overlay(repo, ov, units.contracts(), units.CHILD_MODULES)
     open(os.path.join(ov, "src/verif_kani/c04_gen.rs"), "w").write(units.gen_c04())
     t0 = time.time()
-    w = kani.run_harness(ov, sel[0]["harness"], timeout=1200)
+    w = kani.run_harness(ov, sel[0]["harness"], solver=sel[0].get("solver"), timeout=sel[0].get("timeout", 1200), extra=sel[0].get("extra"))
     print("warm-up (build) %.1fs status=%s" % (time.time() - t0, w["status"]))
     if w.get("error_tail") and w["verdict"] is None:
         print(w["error_tail"]); print("overlay kept at", ov); return 2
